@@ -350,7 +350,7 @@ func checkAttrFunction(token pa.FunctionBlock, allowedType string) (out pr.AttrD
 			if !ok {
 				return
 			}
-			typeOrUnit = string(ident2.Value)
+			typeOrUnit = utils.AsciiLower(ident2.Value)
 			fb, isIN := attrFallbacks[typeOrUnit]
 			if !isIN {
 				return
@@ -699,7 +699,7 @@ func getContentListToken(token Token, baseUrl string) (pr.ContentProperty, error
 		var str string
 		switch arg := arg_.(type) {
 		case pa.Ident:
-			switch arg.Value {
+			switch utils.AsciiLower(arg.Value) {
 			case "dotted":
 				str = "."
 			case "solid":
